@@ -6,6 +6,14 @@ ALL = ["C%02d" % i for i in range(1, 21)]
 
 # id -> dict(level, text, note, technique, design_ref, engine)
 CHECKS = {
+ "C12": dict(level="model_checking", engine="E2 bfs",
+   text="Explicit-state breadth-first search over every edit history (Set/SetAll/Delete/GetOrDefault/Clone/Merge, AddKinds/DeleteKinds/Merge) "
+        "on two real tracked entities from every loaded state over keys {a,b} and kinds {K1,K2}, for bare Properties, Relationship and Node; "
+        "after every transition the recorded delta must be disjoint, reproduce the current state from the loaded state, and the last edit must win.",
+   note="Trusted: the stated reading of Merge (merged loaded state = receiver's overlaid with operand's; keys the operand never edited may keep "
+        "either value). Entities with nil Properties are outside the alphabet. Depth-bounded (quick 4, thorough 6).",
+   technique="explicit-state BFS over real objects (history replay) with delta-replay oracle",
+   design_ref="4/C12"),
  "C16": dict(level="model_checking", engine="E2 bfs + E1 sched",
    text="Explicit-state breadth-first search over every Put/Get/Delete history on the real SIEVE and non-expiring caches "
         "(4 keys, capacities -1..4) until the reachable state space closes, comparing each step with a reference map and "
